@@ -10,6 +10,7 @@ import (
 	"github.com/bitcoin-sv/block-headers-service/domains"
 	"github.com/bitcoin-sv/block-headers-service/internal/chaincfg"
 	"github.com/bitcoin-sv/block-headers-service/internal/chaincfg/chainhash"
+	"github.com/bitcoin-sv/block-headers-service/internal/wire"
 	"github.com/rs/zerolog"
 )
 
@@ -50,3 +51,7 @@ func (c *VerifC06Cursor) Verify(height int32, hash chainhash.Hash) (ok bool) {
 	h := &domains.BlockHeader{Height: height, Hash: hash}
 	return c.ch.VerifyAndAdvance(h) == nil
 }
+
+// VerifC15HandleHeaders runs the real handleHeadersMsg on the CALLING goroutine (the read loop calls it the same way
+// for a headers message read from the connection), so that a harness can place the call in a goroutine it schedules.
+func (p *Peer) VerifC15HandleHeaders(m *wire.MsgHeaders) { p.handleHeadersMsg(m) }
